@@ -354,55 +354,7 @@ func checkC04(R *Run) {
 	}
 	R.floor("login-gate", 4)
 
-	// ---- auth-shape
-	if af := R.mustFn("(*hotline.ClientConn).Authenticate"); af != nil {
-		R.analysed(fname(af))
-		describe := func(f Fact) string {
-			if f.Kind != "nil" || !f.Holds {
-				return ""
-			}
-			c := callValue(f.V)
-			if c == nil || calleeName(&c.Call) != "golang.org/x/crypto/bcrypt.CompareHashAndPassword" || len(c.Call.Args) != 2 {
-				return ""
-			}
-			// arg1 = password parameter, arg0 = []byte(Get(login).Password)
-			if stripConv(c.Call.Args[1]) != ssa.Value(af.Params[2]) {
-				return "compare-with-other-password"
-			}
-			fld, ok := loadedField(stripConv(c.Call.Args[0]))
-			if !ok || fld != "hotline.Account.Password" {
-				return "compare-with-other-hash"
-			}
-			u := stripConv(c.Call.Args[0]).(*ssa.UnOp)
-			acc := u.X.(*ssa.FieldAddr).X
-			get := callValue(acc)
-			if get == nil || calleeName(&get.Call) != "(hotline.AccountManager).Get" || len(get.Call.Args) != 1 || get.Call.Args[0] != ssa.Value(af.Params[1]) {
-				return "hash-of-other-account"
-			}
-			return "bcrypt-ok"
-		}
-		okAll := len(returnsOf(af)) > 0
-		why := ""
-		for _, ret := range returnsOf(af) {
-			v := ret.Results[0]
-			if c, ok := v.(*ssa.Const); ok && c.Value != nil && c.Value.String() == "false" {
-				continue
-			}
-			m := mustHoldWhenTrue(af, v, describe, 0)
-			for d := range domFacts(af, ret.Block(), describe) {
-				m[d] = true
-			}
-			if !m["bcrypt-ok"] {
-				okAll = false
-				var ks []string
-				for k := range m {
-					ks = append(ks, k)
-				}
-				why = fmt.Sprintf("return at %s can yield true without the bcrypt comparison of the looked-up account's hash with the supplied password %v", P.ipos(ret), ks)
-			}
-		}
-		R.check(okAll, "auth-shape", fname(af), P.pos(af.Pos()), "true only through bcrypt.CompareHashAndPassword(Get(login).Password, password) == nil", why)
-	}
+	R.ruleAuthShape()
 
 	// ---- login-args
 	{
@@ -559,4 +511,59 @@ func helperWrites(P *Prog, fn *ssa.Function, idx int) (errReplies, others int) {
 		}
 	}
 	return
+}
+
+// ruleAuthShape (C04, shared with C15: "the password that logs in is the stored one").
+func (R *Run) ruleAuthShape() {
+	P := R.P
+	_ = P
+	if af := R.mustFn("(*hotline.ClientConn).Authenticate"); af != nil {
+		R.analysed(fname(af))
+		describe := func(f Fact) string {
+			if f.Kind != "nil" || !f.Holds {
+				return ""
+			}
+			c := callValue(f.V)
+			if c == nil || calleeName(&c.Call) != "golang.org/x/crypto/bcrypt.CompareHashAndPassword" || len(c.Call.Args) != 2 {
+				return ""
+			}
+			// arg1 = password parameter, arg0 = []byte(Get(login).Password)
+			if stripConv(c.Call.Args[1]) != ssa.Value(af.Params[2]) {
+				return "compare-with-other-password"
+			}
+			fld, ok := loadedField(stripConv(c.Call.Args[0]))
+			if !ok || fld != "hotline.Account.Password" {
+				return "compare-with-other-hash"
+			}
+			u := stripConv(c.Call.Args[0]).(*ssa.UnOp)
+			acc := u.X.(*ssa.FieldAddr).X
+			get := callValue(acc)
+			if get == nil || calleeName(&get.Call) != "(hotline.AccountManager).Get" || len(get.Call.Args) != 1 || get.Call.Args[0] != ssa.Value(af.Params[1]) {
+				return "hash-of-other-account"
+			}
+			return "bcrypt-ok"
+		}
+		okAll := len(returnsOf(af)) > 0
+		why := ""
+		for _, ret := range returnsOf(af) {
+			v := ret.Results[0]
+			if c, ok := v.(*ssa.Const); ok && c.Value != nil && c.Value.String() == "false" {
+				continue
+			}
+			m := mustHoldWhenTrue(af, v, describe, 0)
+			for d := range domFacts(af, ret.Block(), describe) {
+				m[d] = true
+			}
+			if !m["bcrypt-ok"] {
+				okAll = false
+				var ks []string
+				for k := range m {
+					ks = append(ks, k)
+				}
+				why = fmt.Sprintf("return at %s can yield true without the bcrypt comparison of the looked-up account's hash with the supplied password %v", P.ipos(ret), ks)
+			}
+		}
+		R.check(okAll, "auth-shape", fname(af), P.pos(af.Pos()), "true only through bcrypt.CompareHashAndPassword(Get(login).Password, password) == nil", why)
+	}
+
 }
